@@ -247,6 +247,10 @@ let suite_delevsim (line : string) : string =
                       | D.Err _ -> "? ?") in
                let h = "OK H " ^ comps w0 ^ " " ^ comps w' in
                w := { w' with D.hw_risk_admin_signs = false }; c := c'; h)
+      | 33 ->
+          let who = ni t in let a = ni t in let b = ni t in
+          (match D.dv_purge !w (nat_of a) (nat_of b) (who = 0) with
+           | D.Ok w' -> w := w'; "OK" | D.Err e -> err_s e)
       | 32 ->
           let b = ni t in let f = nz t in
           let bs = Stdlib.List.mapi (fun i (hb : D.hbank) ->
